@@ -4,8 +4,10 @@ PID = "C14"
 META = {
     "level": "other",
     "explanation": (
-        "P (proved on the real body of RegionObjectsState.cancel_futures): the scan of the (local id, update type) table is never left "
-        "early, so every request type registered for that local id is reached (found the 'break' defect, fixed). "
+        "P (proved on the real bodies): RegionObjectsState.cancel_futures - the scan of the (local id, update type) table is never "
+        "left early, an entry is visited iff its key carries the local id and then every future in it is cancelled exactly once "
+        "(found the 'break' defect, fixed); RegionObjectsState.resolve_futures - a future of the snapshot is resolved iff it is still "
+        "pending, given that set_result raises exactly on a done future, so no InvalidStateError escapes (the fixed defect fails this). "
         "B (bounded, NOT proved): an independent reference model of the scene graph compared after every message with the real "
         "ProxyWorldObjectManager / region managers driven through a real Session: every (scene graph, enabled message) pair over a universe "
         "of 3 local ids x 3 full ids x 2 regions + unknown handle (91-message alphabet; quick: ~7.7k of ~16k pairs under full renaming "
